@@ -69,6 +69,7 @@ package main
 //@   ensures [C01] same_topic:   t.name == old(t.name) && t.cat == old(t.cat)
 //@   assert at call store.MessagesPersistenceInterface.Save [C16] attachments_linked_with_message: ref($2) == ref(attachments) && len($2) == len(attachments)
 //@   assert at call Save [C03] writer: t.cat == types.TopicCatSys || (effMode(t, asUid) & types.ModeWrite) != 0
+//@   assert at call Save [C03] author_subscribed: t.cat == types.TopicCatSys || ((asUid in t.perUser) && !t.perUser[asUid].deleted)
 //@   ensures [C03] denied: old(t.cat != types.TopicCatSys && (effMode(t, asUid) & types.ModeWrite) == 0) ==> err != nil && t.lastID == old(t.lastID) && rowMax == old(rowMax) && hwm == old(hwm) && outCount[msg.sess] == old(outCount[msg.sess]) + 1 && (forall s int :: s != ref(msg.sess) ==> outCount[s] == old(outCount[s]))
 //@   assert at call Save [C01] seq_is_next: $1.SeqId == old(t.lastID) + 1 && t.lastID == old(t.lastID) && $1.Topic == t.name
 //@   assert at call broadcastToSessions [C01] data_seq: t.lastID == old(t.lastID) + 1 && $1.Data != nil && $1.Data.SeqId == t.lastID
